@@ -216,7 +216,12 @@ def execute(spec, ctx):
         rep_pat = {"elements": [a.el for a in Rm.atoms], "positions": [list(a.pos) for a in Rm.atoms]}
         smap = {} if step["replace_all"] else replcheck.shared_map(spec["pattern"], rep_pat)
         sp = dict(spec, fraction=step["fraction"], replace_all=step["replace_all"], replace=rep_pat)
+        snaps = [replcheck.snapshot(x) for x in (structure, search, replace)]
         run = replcheck.run_replace(ctx, structure, search, replace, sp, step["script"])
+        for snap, obj, what in zip(snaps, (structure, search, replace), ("structure", "search_pattern", "replace_pattern")):
+            if replcheck.snapshot(obj) != snap:
+                changed = [k_ for k_ in snap if snap[k_] != replcheck.snapshot(obj)[k_]]
+                raise Violation("c06:input-modified", "%s changed during replace_pattern_in_structure: %s" % (what, changed), site="replace" + site_suffix)
         if run.exc is not None:
             if type(run.exc).__name__ == "AtomsShouldNotBeDeletedTwice":
                 ctx.count("overlap_error_left_to_C07")
